@@ -87,7 +87,7 @@ META = {
         "follows the parse. R9 - a preset id (ids=[x]) is used only where `x not in document.ids` is known, since docutils' set_id only "
         "reports a clash of preset ids (read from the docutils source). "
         "R6: the first child a new section can receive, on every path, is its nodes.title (interprocedural may-append summary: "
-        "direct appends, note_*_target(_, msgnode), create_warning(append_to=), becoming the current node; parameter guards of "
+        "direct appends, note_*_target(_, msgnode) where msgnode may be the node - also through a conditional expression or a helper that may hand its argument back -, create_warning(append_to=), becoming the current node; parameter guards of "
         "helpers evaluated against the call's literal arguments). "
         "R8 also: a function that collects in a local list the nodes returned by calls that register names/ids with the document "
         "(run_directive, nested renders, anything reaching note_*_target/set_id) and returns that list must return it on every path "
@@ -828,6 +828,36 @@ def _level_map(corpus: Corpus, attr: str) -> _LevelMap:
     return corpus.cache(("c03-levelmap", attr), lambda: _LevelMap(corpus, attr))
 
 
+def _returns_param(f: FunctionInfo, pname: str) -> bool:
+    """May the function return the object passed as ``pname`` (directly or as a branch of a conditional expression)?"""
+    if f.is_lambda:
+        return False
+    for r in f.local_nodes():
+        if isinstance(r, ast.Return) and r.value is not None:
+            v = r.value
+            cands = [v] if isinstance(v, ast.Name) else ([v.body, v.orelse] if isinstance(v, ast.IfExp) else [])
+            if any(isinstance(c, ast.Name) and c.id == pname for c in cands) and not _bindings(f, pname):
+                return True
+    return False
+
+
+def _may_be(corpus: Corpus, fi: FunctionInfo, e: ast.expr, name: str, depth: int = 0) -> bool:
+    """May the expression evaluate to the object held in local/parameter ``name``?"""
+    if isinstance(e, ast.Name):
+        return e.id == name and not _shadowed(e)
+    if isinstance(e, ast.IfExp):
+        return _may_be(corpus, fi, e.body, name, depth) or _may_be(corpus, fi, e.orelse, name, depth)
+    if isinstance(e, ast.Call) and depth < 3:
+        for t in get_callgraph(corpus).resolve_call(e, fi):
+            if isinstance(t, FunctionInfo) and not t.is_lambda:
+                for a in list(e.args) + [k.value for k in e.keywords]:
+                    if _may_be(corpus, fi, a, name, depth + 1):
+                        pn = _param_of(t, e, a)
+                        if pn and _returns_param(t, pn):
+                            return True
+    return False
+
+
 class _StructTrace:
     """Follow a freshly constructed structural node to every site that attaches it."""
 
@@ -873,11 +903,18 @@ class _StructTrace:
                         if pn is None:
                             raise Unsupported(f"cannot map argument {name} of `{short(call, 50)}` to a parameter of {t.qualname}")
                         self.trace(t, pn, via + [(fi, call)], depth + 1)
+                        if _returns_param(t, pn):
+                            # the helper may hand the node back: follow what the caller does with the result
+                            self.value_use(fi, call, name, via, depth + 1)
                     continue
                 fname = (dotted(call.func) or unparse(call.func)).rsplit(".", 1)[-1]
                 if fname in REGISTRY_CALLS:
                     continue
                 raise Unsupported(f"{self.what} `{name}` is passed to `{short(call, 60)}` in {fi.qualname}, whose effect is not modelled")
+            if isinstance(p, ast.Return) or (isinstance(p, ast.IfExp) and (p.body is u or p.orelse is u) and isinstance(parent(p), ast.Return)):
+                if via:
+                    continue  # handed back to the caller: judged there (value_use)
+                raise Unsupported(f"{self.what} `{name}` is returned by {fi.qualname}, where it was built: flow not modelled")
             if isinstance(p, ast.IfExp) and (p.body is u or p.orelse is u) and isinstance(parent(p), ast.Assign) and parent(p).value is p and all(isinstance(t, ast.Name) for t in parent(p).targets):
                 # `alias = node if <cond> else <other>`: the alias may be the node
                 for t in parent(p).targets:
@@ -897,6 +934,37 @@ class _StructTrace:
                     raise Unsupported(f"{self.what} `{name}` stored into `{tt}` in {fi.qualname}")
                 continue
             raise Unsupported(f"{self.what} `{name}` used in `{short(p, 60)}` in {fi.qualname}: flow not modelled")
+
+    def value_use(self, fi: FunctionInfo, e: ast.Call, name: str, via, depth: int) -> None:
+        """``e`` (a call that may return the traced node) is used in ``fi``: classify that use."""
+        if depth > 5:
+            raise Unsupported(f"{self.what} handed back through too many helpers")
+        for node, recv, vals, how in _attach_events(fi):
+            if any(v is e for v in vals):
+                self.attach(fi, node, recv, via)
+                return
+        p = parent(e)
+        if isinstance(p, ast.Expr):
+            return
+        outer = parent(p) if isinstance(p, ast.keyword) else (p if isinstance(p, ast.Call) and (e in p.args) else None)
+        if outer is not None:
+            pkg = [t for t in self.g.resolve_call(outer, fi) if isinstance(t, FunctionInfo)]
+            if pkg:
+                for t in pkg:
+                    pn = _param_of(t, outer, e)
+                    if pn is None:
+                        raise Unsupported(f"cannot map `{short(e, 40)}` to a parameter of {t.qualname}")
+                    self.trace(t, pn, via + [(fi, outer)], depth + 1)
+                return
+            fname = (dotted(outer.func) or unparse(outer.func)).rsplit(".", 1)[-1]
+            if fname in REGISTRY_CALLS:
+                return
+            raise Unsupported(f"`{short(e, 40)}` (may be the {self.what} `{name}`) is passed to `{short(outer, 50)}`, whose effect is not modelled")
+        if isinstance(p, ast.Assign) and p.value is e and all(isinstance(t, ast.Name) for t in p.targets):
+            for t in p.targets:
+                self.trace(fi, t.id, via, depth + 1)
+            return
+        raise Unsupported(f"`{short(e, 40)}` (may be the {self.what} `{name}`) used in `{short(p, 50)}` in {fi.qualname}: flow not modelled")
 
     def attach(self, fi: FunctionInfo, node: ast.AST, recv: ast.expr, via):
         self.n_attach += 1
@@ -1031,8 +1099,7 @@ def _child_events(corpus: Corpus, fi: FunctionInfo, name: str, call_ctx: ast.Cal
     for n in fi.local_nodes():
         if isinstance(n, ast.Assign) and all(isinstance(t, ast.Name) for t in n.targets):
             v = n.value
-            cands = [v] if isinstance(v, ast.Name) else ([v.body, v.orelse] if isinstance(v, ast.IfExp) else [])
-            if any(isinstance(c, ast.Name) and c.id == name and not _shadowed(c) for c in cands):
+            if isinstance(v, (ast.Name, ast.IfExp, ast.Call)) and _may_be(corpus, fi, v, name):
                 for t in n.targets:
                     if t.id != name:
                         out.extend(_child_events(corpus, fi, t.id, call_ctx, depth + 1, seen))
@@ -1044,6 +1111,8 @@ def _child_events(corpus: Corpus, fi: FunctionInfo, name: str, call_ctx: ast.Cal
         if not isinstance(n, ast.Call):
             continue
         uses = [a for a in list(n.args) + [k.value for k in n.keywords] if isinstance(a, ast.Name) and a.id == name and not _shadowed(a)]
+        # an argument computed by a helper that may hand the node back (`self._message_node(node)`)
+        uses += [a for a in list(n.args) + [k.value for k in n.keywords] if isinstance(a, (ast.Call, ast.IfExp)) and _may_be(corpus, fi, a, name)]
         if not uses:
             continue
         fname = (dotted(n.func) or unparse(n.func)).rsplit(".", 1)[-1]
@@ -4110,6 +4179,16 @@ def mutants(corpus: Corpus):
     f = base.func("DocutilsRenderer.render_heading")
     st = find_node(f, lambda n: isinstance(n, ast.Expr) and unparse(n.value) == "new_section.append(title_node)")
     cp = find_node(f, lambda n: isinstance(n, ast.Expr) and isinstance(n.value, ast.Call) and unparse(n.value.func) == "self.copy_attributes" and len(n.value.args) > 1 and unparse(n.value.args[1]) == "new_section")
+    ca = base.func("DocutilsRenderer.copy_attributes")
+    ms = find_node(ca, lambda n: isinstance(n, ast.Assign) and isinstance(n.value, ast.IfExp) and isinstance(n.targets[0], ast.Name) and unparse(n.value.body) == "node")
+    if st is not None and cp is not None and cp.lineno > st.lineno and ms is not None:
+        # the same revert, with the message-node choice moved into a helper that may hand the node back
+        ind_d = _indent(base, ca.node)
+        helper_def = f"def _message_node_of(self, node):\n{ind_d}    return {unparse(ms.value)}\n\n{ind_d}"
+        src2 = _splice_many(base.src, [(cp, "pass"), (st, _stmt_text(base, cp) + "\n" + _indent(base, st) + _stmt_text(base, st)), (ms.value, "self._message_node_of(node)")])
+        start = sum(len(l.encode("utf8")) for l in src2.splitlines(keepends=True)[: ca.node.lineno - 1]) + ca.node.col_offset
+        b2 = src2.encode("utf8")
+        out.append(Mutant("c03-attributes-before-title-message-node-from-helper", "C03.R6", base.rel, (b2[:start] + helper_def.encode("utf8") + b2[start:]).decode("utf8"), expect="copy_attributes"))
     if st is not None and cp is not None and cp.lineno > st.lineno:
         out.append(Mutant("c03-revert-0f7e2b3-attributes-copied-before-title", "C03.R6", base.rel, _splice_many(base.src, [(cp, "pass"), (st, _stmt_text(base, cp) + "\n" + _indent(base, st) + _stmt_text(base, st))]), expect="copy_attributes"))
     else:
